@@ -261,3 +261,9 @@ def stil_grammar(rep, mod):
     rep.ob('C18.grammar', 'scan cell names reduced to the instance name', ok)
     if not ok:
         rep.violate('C18.grammar', mod, sc, 'scan cell name clean-up', 'scan_chain must strip the `.SI` pin suffix and any hierarchy prefix from scan cell names (and keep `!` unchanged)', node=sc)
+
+
+def thorough(rep, repo):
+    """Thorough tier: the quick rules plus checker self-validation on the C18 slice of the mutation corpus."""
+    from kvstatic import thorough as thorough_mod
+    thorough_mod.selftest_slice(rep, repo, 'C18')
